@@ -54,3 +54,8 @@ func moRun(c *core.Ctx, bin, dir string, choices []int, extraEnv []string, args 
 	os.Remove(tf)
 	return moObs{r, tr}
 }
+
+func readFileString(p string) (string, error) {
+	b, err := os.ReadFile(p)
+	return string(b), err
+}
